@@ -9,7 +9,7 @@ TARGET = {  # property the change was written against (second round: see meta.js
     'S2-stream-1': ['C02'], 'S2-stream-2': ['C02'], 'S2-stream-3': ['C04'], 'S2-stream-4': ['C05'],
     'S2-request-1': ['C03'], 'S2-request-2': ['C05'], 'S2-request-3': ['C03'],
 }
-HARMLESS = {'harmless-H1': ['C02', 'C18'], 'harmless-H2': ['C01', 'C05'], 'harmless-H3': ['C15', 'C16', 'C17', 'C06']}
+HARMLESS = {'harmless-R6-request': ['C01', 'C03', 'C05'], 'harmless-R6-stream': ['C02', 'C03', 'C18'], 'harmless-H1': ['C02', 'C18'], 'harmless-H2': ['C01', 'C05'], 'harmless-H3': ['C15', 'C16', 'C17', 'C06']}
 
 def scratch(name, patch):
     d = os.path.join(SCR, name)
